@@ -26,9 +26,6 @@ Definition t_invalid_offset := 4%nat.
 Definition t_permission := 5%nat.
 Definition t_properties_match := 6%nat.
 
-Definition mon := astate.
-Definition minit (c : cfg) : mon := ainit c.
-
 (* a value was found different from the reference store: which clause, by the last event naming it *)
 Definition changed_tag (mark : nat) (default : nat) : nat :=
   if Nat.eqb mark m_written || Nat.eqb mark m_executed then t_write_exact
@@ -69,13 +66,22 @@ Definition judge (c : cfg) (a : astate) (o : srv_op) (x : expect) (r : srv_out) 
           | _ => Ok
           end
       | _ =>
-          match pdu, resp with
-          | 8 :: _, 9 :: l :: entries =>                  (* Read By Type Response *)
-              if existsb (unreadable_handle c) (entry_handles (length entries) (N.to_nat l) entries)
-              then Bad t_permission else Ok
-          | 14 :: hs, 15 :: _ =>                          (* Read Multiple Response *)
-              if existsb (unreadable_handle c) (pair_handles hs) then Bad t_permission else Ok
-          | _, _ => Ok
+          match pdu with
+          | op :: hs =>
+              if op =? 8 then                                   (* Read By Type Response *)
+                match resp with
+                | 9 :: l :: entries =>
+                    if existsb (unreadable_handle c) (entry_handles (length entries) (N.to_nat l) entries)
+                    then Bad t_permission else Ok
+                | _ => Ok
+                end
+              else if op =? 14 then                             (* Read Multiple Response *)
+                match resp with
+                | 15 :: _ => if existsb (unreadable_handle c) (pair_handles hs) then Bad t_permission else Ok
+                | _ => Ok
+                end
+              else Ok
+          | [] => Ok
           end
       end
   | OpVal g, OValue v _ =>
@@ -86,17 +92,7 @@ Definition judge (c : cfg) (a : astate) (o : srv_op) (x : expect) (r : srv_out) 
   | _, _ => Ok
   end.
 
-Definition mstep (c : cfg) (m : mon) (o : srv_op) (r : srv_out) : verdict * mon :=
-  let '(m', x) := astep c m o in (judge c m o x r, m').
-
-Fixpoint monitor_from (c : cfg) (m : mon) (pos : nat) (tr : list (srv_op * srv_out)) : option (nat * nat) :=
-  match tr with
-  | [] => None
-  | (o, r) :: t =>
-      match mstep c m o r with
-      | (Ok, m') => monitor_from c m' (S pos) t
-      | (Bad tag, _) => Some (pos, tag)
-      end
-  end.
-
+Definition mstep (c : cfg) (m : mon) (o : srv_op) (r : srv_out) : verdict * mon := mstep_with judge c m o r.
+Definition monitor_from (c : cfg) (m : mon) (pos : nat) (tr : list (srv_op * srv_out)) : option (nat * nat) :=
+  monitor_from_with judge c m pos tr.
 Definition monitor (c : cfg) (tr : list (srv_op * srv_out)) : option (nat * nat) := monitor_from c (minit c) O tr.
